@@ -556,7 +556,7 @@ pub fn handle(st: &mut State, line: &str) -> String {
             "LIM" => Ok("OK".into()),
             // the text of the built-in dictionary document, as the library itself holds it
             "BUILTINXML" => {
-                let mut o = String::from("XML x");
+                let mut o = String::from("XML ");
                 hex(&mut o, diameter::dictionary::DEFAULT_DICT_XML.as_bytes());
                 Ok(o)
             }
@@ -580,6 +580,15 @@ pub fn handle(st: &mut State, line: &str) -> String {
             "CL" => crate::client::run(st, &mut t),
             "TLS" => crate::net::tls_cell(st, &mut t),
             "NET" => crate::net::scenario(st, &mut t),
+            "RECONN" => crate::net::reconn(st, &mut t),
+            "TLSDOMAIN" => {
+                // the name connect() would hand to the TLS library for this address (hook verif_tls_domain)
+                let a = t.bytes()?;
+                let a = String::from_utf8(a).map_err(|e| e.to_string())?;
+                let mut o = String::from("DOMAIN ");
+                hex(&mut o, diameter::transport::DiameterClient::verif_tls_domain(&a).as_bytes());
+                Ok(o)
+            }
             "X" => run_decode(st, &mut t),
             "LEAFDEC" => leaf_dec(&mut t),
             "LEAFENC" => leaf_enc(&mut t),
